@@ -494,7 +494,16 @@ func (r *runner) invoke(ctx context.Context, s M, ret M) {
 			ret["noTarget"] = true
 			return
 		}
-		mv := reflect.ValueOf(tg).MethodByName(s["method"].(string))
+		var recv any = tg
+		if s["on"] == "dcmi" {
+			// the pkg/dcmi convenience wrappers around a session or a session-less connection
+			if sess, ok := tg.(bmc.Session); ok {
+				recv = dcmi.NewSessionCommander(sess)
+			} else {
+				recv = dcmi.NewSessionlessCommander(r.conn)
+			}
+		}
+		mv := reflect.ValueOf(recv).MethodByName(s["method"].(string))
 		if !mv.IsValid() {
 			panic("harness: no method " + s["method"].(string))
 		}
